@@ -9,10 +9,12 @@ From Verif Require Import Gated.
 Import ListNotations.
 Open Scope N_scope.
 
-Inductive hop := HEv (id : N) (flush : bool) (n : N) | HPlain (n : N) | HFlushAll | HClose.
+Inductive hop := HEv (id : N) (flush : bool) (n : N) | HPlain (n : N) | HFlushAll | HClose
+  | HOther (m : N).      (* another exported method of the Filter: 1 Reopen, 2 Type, 3 Now *)
 
 Record gobs := {
   o_now : Z;                        (* what NowFunc returned during this call *)
+  o_exp : Z;                        (* Filter.Expiration as the harness last set it before this call (an exported field: it may change between calls) *)
   o_res : N;                        (* 0 the very event came back unchanged, 1 (nil,nil) withheld, 2 composite, 3 error, 4 nil (FlushAll/Close) *)
   o_comp : list (N * N);            (* composite returned: the (id, number) of the events it was composed from *)
   o_compose : list (list (N * N));  (* arguments of the ComposeFrom calls made during the call, in order *)
@@ -54,17 +56,22 @@ Definition env_of (c : gcfg) : env :=
                   else if negb (N.eqb (c_cgate_len c) 0) && N.eqb n (c_cgate_len c) then CGateable else COk;
      send_fails := fun k => negb (N.eqb (c_sfail c) 0) && N.eqb (N.succ k) (c_sfail c) |}.
 
+(* the configuration in force during a call: the case's, with the Expiration the filter had at that moment *)
+Definition cfg_at (c : gcfg) (o : gobs) : gcfg :=
+  {| c_broker := c_broker c; c_exp := o_exp o; c_cfail_len := c_cfail_len c; c_cgate_len := c_cgate_len c; c_sfail := c_sfail c |}.
+
 Definition op_of (h : hop) (now : Z) : op :=
   match h with
   | HEv id flush n => Proc id flush n (fun _ => now) now
   | HPlain _ => NonGateable
   | HFlushAll => FlushAll
   | HClose => Close
+  | HOther _ => Other
   end.
 
 Definition opkind (h : hop) : N :=
   match h with
-  | HEv 0 _ _ => 6 | HEv _ false _ => 1 | HEv _ true _ => 2 | HPlain _ => 3 | HFlushAll => 4 | HClose => 5
+  | HEv 0 _ _ => 6 | HEv _ false _ => 1 | HEv _ true _ => 2 | HPlain _ => 3 | HFlushAll => 4 | HClose => 5 | HOther _ => 8
   end.
 
 Definition res_code (r : res) : N := match r with RPass => 0 | RWithheld => 1 | RComposite _ => 2 | RErr => 3 | RNil => 4 end.
@@ -126,7 +133,7 @@ Fixpoint run_case (c : gcfg) (div : bool) (s : gst) (st : ostate) (i : N) (steps
   match steps with
   | [] => []
   | (h, o) :: rest =>
-      let E := env_of c in
+      let E := env_of (cfg_at c o) in
       let '(s', r) := step E s (op_of h (o_now o)) in
       let new := produced s s' in
       let mm := if div then [] else
